@@ -375,6 +375,9 @@ func GenC13(seed uint64, run int) *Trace {
 			spec.Blocks[i].Size = r.Range(0, 120)
 		}
 	}
+	if r.Chance(1, 80) {
+		LongBlocks(r, &spec)
+	}
 	if r.Chance(1, 3) && len(spec.Blocks) > 0 {
 		// an empty block and an identity block: the shapes min/avg statistics are sensitive to
 		spec.Blocks = append(spec.Blocks, BlkSpec{Kind: "raw", Seed: 3, Size: 0}, BlkSpec{Kind: "id", Seed: 3, Size: Pick(r, []int{0, 3, 20})})
